@@ -55,7 +55,9 @@ const (
 	cidOther                  // another client's ID (or a never-issued one)
 )
 
-func (m cidMode) String() string { return [...]string{"", " owner.clientid=0", " owner.clientid=other"}[m] }
+func (m cidMode) String() string {
+	return [...]string{"", " owner.clientid=0", " owner.clientid=other"}[m]
+}
 
 var cidModes = []cidMode{cidSession, cidZero, cidOther}
 
